@@ -280,7 +280,9 @@ class SolveTScripted(BoundedCheck):
             if not (a == b or (math.isnan(a) and math.isnan(b))):
                 sig = 'solve_t.rejected-call-changes-values' + (':offset-copy-before-nan-check' if exp['note'] == 'pre-existing' and case['offset'] else '')
                 bad('a call rejected up front changes nothing', sig, b, a, 'rejected_call_changes_nothing')
-        elif case['offset'] == 0 and exc is None:
+        elif case['offset'] == 0 and (exc is None or exp['note'] in ('evaluate', 'numerical')) and exp['exc'] == ename:
+            # also when the period fails: a pass that raised stores nothing (errors='raise' with catch_first_error stops at the first warning),
+            # a pass whose non-finite result is detected after the pass has stored it
             a = float(m.X[nt])
             if not (a == exp['X'] or (math.isnan(a) and math.isnan(exp['X']))) and not region:
                 bad('stored value after the last pass', 'solve_t.value', exp['X'], a, 'value')
